@@ -116,6 +116,7 @@ func c17Systematic(tier string) []*Case {
 			c := scriptCfg(prog, "")
 			c.ClockStartMs = st
 			c.ClockStepsMs = []int64{sp, 1}
+			c.TZOffsetMin = []int{0, 360, -300, 765}[len(out)%4]
 			cs := &Case{Prop: "C17", Kind: "clock", Sig: "now,now", Program: prog, Runs: []Run{{Role: "clock", Cfg: c}}}
 			cs.Aux = &Aux{C17: &C17Expect{PrintOrder: []int{0, 1}, Calls: 2}}
 			out = append(out, cs)
